@@ -67,6 +67,10 @@ pub assume_specification<K, V>[ IndexMap::<K, V>::contains_key ](m: &IndexMap<K,
     ensures r == im_keys(*m).contains(*k);
 pub assume_specification[ <ReferrerImports as Clone>::clone ](r: &ReferrerImports) -> (c: ReferrerImports) ensures c == *r;
 /// the rest of the build (contracts in the units pendloop / restart): here only that they are called
-pub assume_specification<'a, 'graph>[ Builder::<'a, 'graph>::resolve_pending ](b: &mut Builder<'a, 'graph>) -> (r: bool);
-pub assume_specification<'a, 'graph>[ Builder::<'a, 'graph>::restart ](b: &mut Builder<'a, 'graph>, r: Vec<Url>, i: Vec<ReferrerImports>);
+/// ASSUMED frames: draining the queues never touches the configured imports; a restart re-runs the build with the
+/// provided imports (recursion: the property it is assumed to re-establish is the one `build` ensures)
+pub assume_specification<'a, 'graph>[ Builder::<'a, 'graph>::resolve_pending ](b: &mut Builder<'a, 'graph>) -> (r: bool)
+    ensures im_keys((*final(b).graph).imports) == im_keys((*old(b).graph).imports);
+pub assume_specification<'a, 'graph>[ Builder::<'a, 'graph>::restart ](b: &mut Builder<'a, 'graph>, r: Vec<Url>, i: Vec<ReferrerImports>)
+    ensures forall|k: int| 0 <= k < i@.len() ==> im_keys((*final(b).graph).imports).contains((#[trigger] i@[k]).referrer);
 } // verus!
